@@ -81,6 +81,8 @@ def add_computed_field(*args, resources=None, **kw):
             fields = [kw]
         elif len(args) == 1:
             fields = args[0]
+        # Work on copies: the arguments stay as given, so that the same flow can run again
+        fields = [dict(f) for f in fields]
 
         for resource in package.pkg.descriptor['resources']:
             if matcher.match(resource['name']):
